@@ -33,7 +33,7 @@ class Job:
                  timeout=900, sentinel=None, cover=False, functions=(),
                  safety=None, known=(), replay=None, expect_obligations=(),
                  allow_nobody=(), includes=(), solver=None, note="", nondfcc=False,
-                 unwind_ok=False, objbits=12, local_frame_ok=(), pre_unwind=None):
+                 unwind_ok=False, objbits=12, local_frame_ok=(), pre_unwind=None, precheck=None):
         self.name = name
         self.harness = harness
         self.entry = entry
@@ -59,6 +59,7 @@ class Job:
         self.note = note
         self.nondfcc = nondfcc
         self.unwind_ok = unwind_ok
+        self.precheck = precheck        # callable(repo) -> None or a message: a guard that makes the job undecided (exit 2)
         self.objbits = objbits
         self.local_frame_ok = list(local_frame_ok)
         self.pre_unwind = pre_unwind
@@ -128,6 +129,10 @@ def run_job(job, work, tier, log):
     jw = os.path.join(work, job.name)
     os.makedirs(jw, exist_ok=True)
     info = {"job": job.name, "cmds": [], "extracted": []}
+    if job.precheck is not None:
+        msg = job.precheck(REPO)
+        if msg:
+            raise ToolProblem("precheck of %s: %s" % (job.name, msg))
     inc = ["-I", VERIF, "-I", jw, "-I", os.path.join(VERIF, "contracts"),
            "-I", os.path.join(VERIF, "models"), "-I", os.path.join(VERIF, "spec")]
     for i in job.includes:
